@@ -34,6 +34,8 @@ TEMPLATES = {
     "droplic": ("droplic.jinja2", "{% for copyright_line in copyright_lines %}\n{{ copyright_line }}\n{% endfor %}\nLicensed somehow.\n"),
     "dropcop": ("dropcop.jinja2", "{% for expression in spdx_expressions %}\nSPDX-License-Identifier: {{ expression }}\n{% endfor %}\n"),
     "dropboth": ("dropboth.jinja2", "Nothing to see here.\n"),
+    # keeps the notices and the LAST licence only
+    "droplast": ("droplast.jinja2", "{% for copyright_line in copyright_lines %}\n{{ copyright_line }}\n{% endfor %}\n\nSPDX-License-Identifier: {{ spdx_expressions | last }}\n"),
     # ignores what it is given and states a fixed notice + licence: right for a file without information and the matching request
     # ('Jane Doe', 2020, MIT), information-dropping for a file that already declares something else
     "fixedonly": ("fixedonly.jinja2", "SPDX-FileCopyrightText: 2020 Jane Doe\n\nSPDX-License-Identifier: MIT\n"),
@@ -42,7 +44,7 @@ TEMPLATES = {
     "cdropcop": ("cdropcop.commented.jinja2", "{% for expression in spdx_expressions %}\n# SPDX-License-Identifier: {{ expression }}\n{% endfor %}\n"),
     "cdropboth": ("cdropboth.commented.jinja2", "# Nothing to see here.\n"),
 }
-DROPPING = {"droplic", "dropcop", "dropboth", "cdroplic", "cdropcop", "cdropboth"}
+DROPPING = {"droplic", "dropcop", "dropboth", "cdroplic", "cdropcop", "cdropboth", "droplast"}
 
 
 def commented_template(style: str) -> str:
